@@ -13,6 +13,10 @@ def main():
     npairs = 14 if q else 160
     for i, p in enumerate(roots[:npairs]):
         pairs.append((p, 5 + i % 2 if q else 5 + i % 3))
+    # positions in which the very first iteration is interrupted (no root move scored yet)
+    expl = searches.explosive_positions()
+    for i, p in enumerate(expl[:6 if q else len(expl)]):
+        pairs.append((p, 1 + i % 2))
     profs = ("opt",) if q else ("opt", "dev")
     all_files = []
     total_k = 0
@@ -37,10 +41,13 @@ def main():
             cap = 40 if q else 200
             ks = list(range(1, n + 1)) if n <= cap else sorted(set(list(range(1, 21)) + list(range(n - 19, n + 1)) +
                                                                      [rng.randrange(1, n + 1) for _ in range(cap - 40)]))
-            nxt = roots[(roots.index(p) + 1) % len(roots)]
+            nxt = roots[(roots.index(p) + 1) % len(roots)] if p in roots else roots[0]
             for k in ks:
+                # follow-ups on the same tables: the same position at least as deep as the interrupted search (so that
+                # the nodes the interrupted search wrote to are visited again), then another position
                 jobs.append({"hash": 1, "tag": "stop@%d/%d" % (k, n),
-                             "searches": [{"pos": p, "depth": d, "stopk": k}, {"pos": p, "depth": 4}, {"pos": nxt, "depth": 3}]})
+                             "searches": [{"pos": p, "depth": d, "stopk": k}, {"pos": p, "depth": d + (1 if d >= 3 else 0)},
+                                          {"pos": nxt, "depth": 3}]})
                 total_k += 1
             if sample is None:
                 sample = {"fen": p["fen"], "depth_limit": d, "flag_loads_unstopped": n, "stop_indices": ks[:8]}
